@@ -690,7 +690,7 @@ void Parser::ParserImpl::loadComponent(const ComponentPtr &component, const XmlN
             // Copy any namespaces that do not feature as a namespace definition
             // of the math node into the math node.
             auto mathElementDefinedNamespaces = childNode->definedNamespaces();
-            auto possiblyUndefinedNamespaces = traverseTreeForUndefinedNamespaces(childNode->firstChild());
+            auto possiblyUndefinedNamespaces = traverseTreeForUndefinedNamespaces(childNode, false);
             auto undefinedNamespaces = determineMissingNamespaces(possiblyUndefinedNamespaces, mathElementDefinedNamespaces);
             XmlNamespaceMap::const_iterator it;
             for (it = undefinedNamespaces.begin(); it != undefinedNamespaces.end(); ++it) {
@@ -1754,7 +1754,7 @@ void Parser::ParserImpl::loadResetChild(const std::string &childType, const Rese
             // of the math node into the math node (as done for the math of a
             // component), so that the math is a self contained XML document.
             auto mathElementDefinedNamespaces = mathNode->definedNamespaces();
-            auto possiblyUndefinedNamespaces = traverseTreeForUndefinedNamespaces(mathNode->firstChild());
+            auto possiblyUndefinedNamespaces = traverseTreeForUndefinedNamespaces(mathNode, false);
             auto undefinedNamespaces = determineMissingNamespaces(possiblyUndefinedNamespaces, mathElementDefinedNamespaces);
             for (const auto &undefinedNamespace : undefinedNamespaces) {
                 mathNode->addNamespaceDefinition(undefinedNamespace.second, undefinedNamespace.first);
